@@ -2807,6 +2807,12 @@ class RockRidge:
                     # There wasn't enough room in the last SL record
                     # for more data.  Set the 'continued' flag on the old
                     # SL record, and then create a new one.
+                    if self.dr_entries.ce_record is None:
+                        # The rest has to go to a continuation area, and
+                        # there is none yet; tell the caller to retry with
+                        # one.
+                        return -1
+
                     curr_sl.set_continued()
                     if offset != 0:
                         # If we need to continue this particular
@@ -2832,7 +2838,9 @@ class RockRidge:
                     if complen > curr_comp_area_length:
                         length = curr_comp_area_length - 2
                     else:
-                        length = complen
+                        # 'length' is the number of data bytes; the two
+                        # header bytes are accounted for separately below.
+                        length = complen - 2
                     compslice = comp[offset:offset + length]
 
                 curr_sl.add_component(compslice)
